@@ -147,11 +147,19 @@ func (s *Scheduler) Cron(receiver vivid.ActorRef, cron string, message vivid.Mes
 }
 
 func (s *Scheduler) Once(receiver vivid.ActorRef, delay time.Duration, message vivid.Message, options ...vivid.ScheduleOption) error {
+	if delay < 0 {
+		// 负延时的一次性触发器在调度器看来已经"过期"，会被直接丢弃而永不触发
+		return vivid.ErrorIllegalArgument.WithMessage(fmt.Sprintf("negative delay: %s", delay))
+	}
 	opts := vivid.NewScheduleOptions(options...)
 	return s.scheduleJob(receiver, message, opts, quartz.NewRunOnceTrigger(delay), "once", log.Duration("delay", delay))
 }
 
 func (s *Scheduler) Loop(receiver vivid.ActorRef, interval time.Duration, message vivid.Message, options ...vivid.ScheduleOption) error {
+	if interval <= 0 {
+		// 非正间隔的循环触发器永远处于"已到期"状态：调度循环会在它上面空转（占满一个 CPU），整个系统的其他任务都无法再触发
+		return vivid.ErrorIllegalArgument.WithMessage(fmt.Sprintf("non-positive interval: %s", interval))
+	}
 	opts := vivid.NewScheduleOptions(options...)
 	return s.scheduleJob(receiver, message, opts, quartz.NewSimpleTrigger(interval), "loop", log.Duration("interval", interval))
 }
